@@ -45,6 +45,7 @@ From Coq Require Import PrimFloat.
 From Coq Require Import ZArith List Bool Reals Lra Permutation Sorted.
 From BZ Require Import Base.Ops Gen.Point Gen.BBox Gen.Line Gen.Quad Gen.Cubic Hand.Bounds Hand.CurveCurve Proofs.C02 Proofs.C06 Proofs.C06sym.
 Import ListNotations.
+From BZ Require Gen.Sample Gen.CurveCurve Proofs.Bridge4.
 Open Scope R_scope.
 
 Theorem C06_range_invariant :
@@ -149,6 +150,72 @@ Proof. exact @cc_err_sym. Qed.
 Theorem C06_cc_dedup_sym :
   forall (K : Type) (key2 : R -> K) (keq : K -> K -> bool), (forall a, keq a a = true) -> (forall a b c, keq a b = true -> keq b c = true -> keq a c = true) -> forall fuel a b l, cc_t ROps key2 keq fuel a b = Ok l -> exists lr lr' l', cc_raw ROps fuel a b = Ok lr /\ cc_raw ROps fuel b a = Ok lr' /\ cc_t ROps key2 keq fuel b a = Ok l' /\ Permutation (map swap_pair lr) lr' /\ (forall x, In x l -> In x lr) /\ (forall x, In x l' -> In x lr') /\ (forall x, In x l -> In (swap_pair x) lr') /\ (forall x, In x l' -> In (swap_pair x) lr) /\ (forall x, In x lr -> exists y, In y l /\ keq (key2 (fst x)) (key2 (fst y)) = true) /\ (forall x, In x lr' -> exists y, In y l' /\ keq (key2 (fst x)) (key2 (fst y)) = true) /\ (forall t1 t2, In (t1, t2) l -> exists u v, In (u, v) l' /\ keq (key2 t2) (key2 u) = true /\ In (v, u) lr).
 Proof. exact @cc_dedup_sym. Qed.
+Theorem C06_cc_t_QQ_gen :
+  forall (T : Type) (O : Ops T) (K : Type) (key2 : T -> K) (keq : K -> K -> bool) (fuel : nat) (a b : seg3 T) (lo hi lo' hi' : T), Bridge4.result_of (CurveCurve.Quad__curve_curve_intersections_t_Quad O key2 keq fuel {| CurveCurve.rg_seg := a; CurveCurve.rg_lo := lo; CurveCurve.rg_hi := hi |} {| CurveCurve.rg_seg := b; CurveCurve.rg_lo := lo'; CurveCurve.rg_hi := hi' |}) = cc_t O key2 (Bridge4.flip keq) fuel {| pc := CQuad a; plo := lo; phi := hi |} {| pc := CQuad b; plo := lo'; phi := hi' |}.
+Proof. exact @Bridge4.cc_t_QQ_gen. Qed.
+Theorem C06_cc_t_QC_gen :
+  forall (T : Type) (O : Ops T) (K : Type) (key2 : T -> K) (keq : K -> K -> bool) (fuel : nat) (a : seg3 T) (b : seg4 T) (lo hi lo' hi' : T), Bridge4.result_of (CurveCurve.Quad__curve_curve_intersections_t_Cubic O key2 keq fuel {| CurveCurve.rg_seg := a; CurveCurve.rg_lo := lo; CurveCurve.rg_hi := hi |} {| CurveCurve.rg_seg := b; CurveCurve.rg_lo := lo'; CurveCurve.rg_hi := hi' |}) = cc_t O key2 (Bridge4.flip keq) fuel {| pc := CQuad a; plo := lo; phi := hi |} {| pc := CCubic b; plo := lo'; phi := hi' |}.
+Proof. exact @Bridge4.cc_t_QC_gen. Qed.
+Theorem C06_cc_t_CQ_gen :
+  forall (T : Type) (O : Ops T) (K : Type) (key2 : T -> K) (keq : K -> K -> bool) (fuel : nat) (a : seg4 T) (b : seg3 T) (lo hi lo' hi' : T), Bridge4.result_of (CurveCurve.Cubic__curve_curve_intersections_t_Quad O key2 keq fuel {| CurveCurve.rg_seg := a; CurveCurve.rg_lo := lo; CurveCurve.rg_hi := hi |} {| CurveCurve.rg_seg := b; CurveCurve.rg_lo := lo'; CurveCurve.rg_hi := hi' |}) = cc_t O key2 (Bridge4.flip keq) fuel {| pc := CCubic a; plo := lo; phi := hi |} {| pc := CQuad b; plo := lo'; phi := hi' |}.
+Proof. exact @Bridge4.cc_t_CQ_gen. Qed.
+Theorem C06_cc_t_CC_gen :
+  forall (T : Type) (O : Ops T) (K : Type) (key2 : T -> K) (keq : K -> K -> bool) (fuel : nat) (a b : seg4 T) (lo hi lo' hi' : T), Bridge4.result_of (CurveCurve.Cubic__curve_curve_intersections_t_Cubic O key2 keq fuel {| CurveCurve.rg_seg := a; CurveCurve.rg_lo := lo; CurveCurve.rg_hi := hi |} {| CurveCurve.rg_seg := b; CurveCurve.rg_lo := lo'; CurveCurve.rg_hi := hi' |}) = cc_t O key2 (Bridge4.flip keq) fuel {| pc := CCubic a; plo := lo; phi := hi |} {| pc := CCubic b; plo := lo'; phi := hi' |}.
+Proof. exact @Bridge4.cc_t_CC_gen. Qed.
+Theorem C06_cci_QQ_gen :
+  forall (T : Type) (O : Ops T) (K : Type) (key2 : T -> K) (keq : K -> K -> bool) (fuel : nat) (a b : seg3 T), Bridge4.result_of (CurveCurve.Quad__curve_curve_intersections_Quad O key2 keq fuel a b) = curve_curve_intersections O key2 (Bridge4.flip keq) fuel (CQuad a) (CQuad b).
+Proof. exact @Bridge4.cci_QQ_gen. Qed.
+Theorem C06_cci_QC_gen :
+  forall (T : Type) (O : Ops T) (K : Type) (key2 : T -> K) (keq : K -> K -> bool) (fuel : nat) (a : seg3 T) (b : seg4 T), Bridge4.result_of (CurveCurve.Quad__curve_curve_intersections_Cubic O key2 keq fuel a b) = curve_curve_intersections O key2 (Bridge4.flip keq) fuel (CQuad a) (CCubic b).
+Proof. exact @Bridge4.cci_QC_gen. Qed.
+Theorem C06_cci_CQ_gen :
+  forall (T : Type) (O : Ops T) (K : Type) (key2 : T -> K) (keq : K -> K -> bool) (fuel : nat) (a : seg4 T) (b : seg3 T), Bridge4.result_of (CurveCurve.Cubic__curve_curve_intersections_Quad O key2 keq fuel a b) = curve_curve_intersections O key2 (Bridge4.flip keq) fuel (CCubic a) (CQuad b).
+Proof. exact @Bridge4.cci_CQ_gen. Qed.
+Theorem C06_cci_CC_gen :
+  forall (T : Type) (O : Ops T) (K : Type) (key2 : T -> K) (keq : K -> K -> bool) (fuel : nat) (a b : seg4 T), Bridge4.result_of (CurveCurve.Cubic__curve_curve_intersections_Cubic O key2 keq fuel a b) = curve_curve_intersections O key2 (Bridge4.flip keq) fuel (CCubic a) (CCubic b).
+Proof. exact @Bridge4.cci_CC_gen. Qed.
+Theorem C06_intersections_QQ_gen :
+  forall (T : Type) (O : Ops T) (K : Type) (key2 : T -> K) (keq : K -> K -> bool) (fuel : nat) (a b : seg3 T) (limited : bool), Bridge4.result_of (CurveCurve.Quad_intersections_Quad O key2 keq fuel a b limited) = intersections O key2 (Bridge4.flip keq) fuel (SQuad a) (SQuad b) limited.
+Proof. exact @Bridge4.intersections_QQ_gen. Qed.
+Theorem C06_intersections_QC_gen :
+  forall (T : Type) (O : Ops T) (K : Type) (key2 : T -> K) (keq : K -> K -> bool) (fuel : nat) (a : seg3 T) (b : seg4 T) (limited : bool), Bridge4.result_of (CurveCurve.Quad_intersections_Cubic O key2 keq fuel a b limited) = intersections O key2 (Bridge4.flip keq) fuel (SQuad a) (SCubic b) limited.
+Proof. exact @Bridge4.intersections_QC_gen. Qed.
+Theorem C06_intersections_CQ_gen :
+  forall (T : Type) (O : Ops T) (K : Type) (key2 : T -> K) (keq : K -> K -> bool) (fuel : nat) (a : seg4 T) (b : seg3 T) (limited : bool), Bridge4.result_of (CurveCurve.Cubic_intersections_Quad O key2 keq fuel a b limited) = intersections O key2 (Bridge4.flip keq) fuel (SCubic a) (SQuad b) limited.
+Proof. exact @Bridge4.intersections_CQ_gen. Qed.
+Theorem C06_intersections_CC_gen :
+  forall (T : Type) (O : Ops T) (K : Type) (key2 : T -> K) (keq : K -> K -> bool) (fuel : nat) (a b : seg4 T) (limited : bool), Bridge4.result_of (CurveCurve.Cubic_intersections_Cubic O key2 keq fuel a b limited) = intersections O key2 (Bridge4.flip keq) fuel (SCubic a) (SCubic b) limited.
+Proof. exact @Bridge4.intersections_CC_gen. Qed.
+Theorem C06_intersections_LL_gen :
+  forall (T : Type) (O : Ops T) (K : Type) (key2 : T -> K) (keq : K -> K -> bool) (fuel : nat) (a b : seg2 T) (limited : bool), Ok (CurveCurve.Line_intersections_Line O a b limited) = intersections O key2 (Bridge4.flip keq) fuel (SLine a) (SLine b) limited.
+Proof. exact @Bridge4.intersections_LL_gen. Qed.
+Theorem C06_intersections_LQ_gen :
+  forall (T : Type) (O : Ops T) (K : Type) (key2 : T -> K) (keq : K -> K -> bool) (fuel : nat) (a : seg2 T) (b : seg3 T) (limited : bool), Ok (CurveCurve.Line_intersections_Quad O a b limited) = intersections O key2 (Bridge4.flip keq) fuel (SLine a) (SQuad b) limited.
+Proof. exact @Bridge4.intersections_LQ_gen. Qed.
+Theorem C06_intersections_LC_gen :
+  forall (T : Type) (O : Ops T) (K : Type) (key2 : T -> K) (keq : K -> K -> bool) (fuel : nat) (a : seg2 T) (b : seg4 T) (limited : bool), Ok (CurveCurve.Line_intersections_Cubic O a b limited) = intersections O key2 (Bridge4.flip keq) fuel (SLine a) (SCubic b) limited.
+Proof. exact @Bridge4.intersections_LC_gen. Qed.
+Theorem C06_intersections_QL_gen :
+  forall (T : Type) (O : Ops T) (K : Type) (key2 : T -> K) (keq : K -> K -> bool) (fuel : nat) (a : seg3 T) (b : seg2 T) (limited : bool), Ok (CurveCurve.Quad_intersections_Line O a b limited) = intersections O key2 (Bridge4.flip keq) fuel (SQuad a) (SLine b) limited.
+Proof. exact @Bridge4.intersections_QL_gen. Qed.
+Theorem C06_intersections_CL_gen :
+  forall (T : Type) (O : Ops T) (K : Type) (key2 : T -> K) (keq : K -> K -> bool) (fuel : nat) (a : seg4 T) (b : seg2 T) (limited : bool), Ok (CurveCurve.Cubic_intersections_Line O a b limited) = intersections O key2 (Bridge4.flip keq) fuel (SCubic a) (SLine b) limited.
+Proof. exact @Bridge4.intersections_CL_gen. Qed.
+Theorem C06_cc_t_CC_gen_sym :
+  forall (T : Type) (O : Ops T) (K : Type) (key2 : T -> K) (keq : K -> K -> bool), (forall x y : K, keq x y = keq y x) -> forall (fuel : nat) (a b : seg4 T) (lo hi lo' hi' : T), Bridge4.result_of (CurveCurve.Cubic__curve_curve_intersections_t_Cubic O key2 keq fuel {| CurveCurve.rg_seg := a; CurveCurve.rg_lo := lo; CurveCurve.rg_hi := hi |} {| CurveCurve.rg_seg := b; CurveCurve.rg_lo := lo'; CurveCurve.rg_hi := hi' |}) = cc_t O key2 keq fuel {| pc := CCubic a; plo := lo; phi := hi |} {| pc := CCubic b; plo := lo'; phi := hi' |}.
+Proof. exact @Bridge4.cc_t_CC_gen_sym. Qed.
+Theorem C06_intersections_CC_gen_sym :
+  forall (T : Type) (O : Ops T) (K : Type) (key2 : T -> K) (keq : K -> K -> bool), (forall x y : K, keq x y = keq y x) -> forall (fuel : nat) (a b : seg4 T) (limited : bool), Bridge4.result_of (CurveCurve.Cubic_intersections_Cubic O key2 keq fuel a b limited) = intersections O key2 keq fuel (SCubic a) (SCubic b) limited.
+Proof. exact @Bridge4.intersections_CC_gen_sym. Qed.
+Theorem C06_keyF_eqb_sym :
+  forall x y : Z * Z, keyF_eqb x y = keyF_eqb y x.
+Proof. exact @Bridge4.keyF_eqb_sym. Qed.
+Theorem C06_cc_t_CC_gen_float :
+  forall (fuel : nat) (a b : seg4 float) (lo hi lo' hi' : float), Bridge4.result_of (CurveCurve.Cubic__curve_curve_intersections_t_Cubic FOps key2F keyF_eqb fuel {| CurveCurve.rg_seg := a; CurveCurve.rg_lo := lo; CurveCurve.rg_hi := hi |} {| CurveCurve.rg_seg := b; CurveCurve.rg_lo := lo'; CurveCurve.rg_hi := hi' |}) = cc_t FOps key2F keyF_eqb fuel {| pc := CCubic a; plo := lo; phi := hi |} {| pc := CCubic b; plo := lo'; phi := hi' |}.
+Proof. exact @Bridge4.cc_t_CC_gen_float. Qed.
+Theorem C06_intersections_CC_gen_float :
+  forall (fuel : nat) (a b : seg4 float) (limited : bool), Bridge4.result_of (CurveCurve.Cubic_intersections_Cubic FOps key2F keyF_eqb fuel a b limited) = intersections FOps key2F keyF_eqb fuel (SCubic a) (SCubic b) limited.
+Proof. exact @Bridge4.intersections_CC_gen_float. Qed.
 
 Print Assumptions C06_range_invariant.
 Print Assumptions C06_repr_whole.
@@ -184,3 +251,25 @@ Print Assumptions C06_cc_raw_sym_in.
 Print Assumptions C06_intersections_mixed_degree_eq.
 Print Assumptions C06_cc_err_sym.
 Print Assumptions C06_cc_dedup_sym.
+Print Assumptions C06_cc_t_QQ_gen.
+Print Assumptions C06_cc_t_QC_gen.
+Print Assumptions C06_cc_t_CQ_gen.
+Print Assumptions C06_cc_t_CC_gen.
+Print Assumptions C06_cci_QQ_gen.
+Print Assumptions C06_cci_QC_gen.
+Print Assumptions C06_cci_CQ_gen.
+Print Assumptions C06_cci_CC_gen.
+Print Assumptions C06_intersections_QQ_gen.
+Print Assumptions C06_intersections_QC_gen.
+Print Assumptions C06_intersections_CQ_gen.
+Print Assumptions C06_intersections_CC_gen.
+Print Assumptions C06_intersections_LL_gen.
+Print Assumptions C06_intersections_LQ_gen.
+Print Assumptions C06_intersections_LC_gen.
+Print Assumptions C06_intersections_QL_gen.
+Print Assumptions C06_intersections_CL_gen.
+Print Assumptions C06_cc_t_CC_gen_sym.
+Print Assumptions C06_intersections_CC_gen_sym.
+Print Assumptions C06_keyF_eqb_sym.
+Print Assumptions C06_cc_t_CC_gen_float.
+Print Assumptions C06_intersections_CC_gen_float.
